@@ -397,6 +397,22 @@ def judge(ctx, idx, case):
             break
         if common.nontrivial(doc):
             ctx.hashes.add(gen.case_hash([case["ops"], oi]))
+    else:
+        if idx % 4 == 2:
+            # the document goes on living: an element (inside a bundle, if there is one) gets one more value and the document is drawn
+            # again -- it has to be the drawing of the document as it is now
+            conts = [b for b in doc.bundles if b._records] or [doc]
+            els = [x for x in conts[0]._records if x.is_element()]
+            if els:
+                from prov.identifier import Namespace
+                els[idx % len(els)].add_attributes([(Namespace("chg", "http://change.example/")["note"], "added after the first drawing (%d)" % idx)])
+                oi = next((i for i in case["opts"] if ALL_OPTS[i]["show_element_attributes"]), None)
+                opt = dict(ALL_OPTS[oi if oi is not None else case["opts"][0]], show_element_attributes=True)
+                problems, text = check_render(doc, opt, ctx)
+                ctx.count("second_drawing_after_a_change")
+                if problems:
+                    ctx.violation(idx, "DOT (%s), drawn again after a value was added: %s" % (json.dumps(opt), str(problems[0])[:300]),
+                                  {"ops": case["ops"], "opts": case["opts"]}, {"problems": strict.jsonable(problems[:4]), "dot": (text or "")[:6000]})
     ctx.sample({"program": case["ops"], "options": [ALL_OPTS[i] for i in case["opts"][:3]]}, limit=1)
     common.drain_monitors(ctx, idx, case)
 
@@ -415,8 +431,8 @@ def floors(counters, tier, extra):
     if counters.get("renderings", 0) < (3000 if tier == "quick" else 30000):
         out.append("only %d renderings" % counters.get("renderings", 0))
     for k in ("paths_compared", "paths_via_blank_node", "nary_segments_compared", "element_nodes_compared", "clusters_compared",
-              "annotations_checked", "relation_annotations_checked", "opt.direction=sideways", "opt.use_labels=True"):
-        if counters.get(k, 0) < need:
+              "annotations_checked", "relation_annotations_checked", "opt.direction=sideways", "opt.use_labels=True", "second_drawing_after_a_change"):
+        if counters.get(k, 0) < (need if k != "second_drawing_after_a_change" else need // 2):
             out.append("%s only %d" % (k, counters.get(k, 0)))
     out.extend(common.cov_floor(extra))
     return out
@@ -428,6 +444,6 @@ LEVEL_TEXT = ("Exploration by runtime observation with an external oracle: the D
               "fill, cluster membership; edges; rendered text spans) is compared with a model from the strict content of each unified container: "
               "one element node per element record in the right cluster, a node for every referenced name, one path per relation with both "
               "ends in the right direction (via exactly one blank node when n-ary or annotated), n-ary segments, annotations showing every "
-              "non-reference attribute, and rendered text equal to the literal text (no markup injected).")
+              "non-reference attribute, and rendered text equal to the literal text (no markup injected). A quarter of the documents get one more value after their drawings and are drawn again.")
 LEVEL_NOTE = "Trusted: Graphviz 2.43 as renderer and parser, the model in this file. One process per rendering bounds the volume."
 DESIGN_REF = "DESIGN.md section 4.2 (DOT reader) and section 6, C15"
